@@ -262,6 +262,9 @@ def valid_title(t):
     return 0 < len(t) <= 31 and not re.search(r'[\\*?:/\[\]]', t)
 
 
+_PREV_TEXT = []
+
+
 def whole_book(ctx, bi):
     r, rng = ctx.r, ctx.rng
     spec, info = books.gen(rng, formulas_per_sheet=rng.randrange(4, 10))
@@ -340,6 +343,11 @@ def whole_book(ctx, bi):
     if bi % 2:
         fpath = os.path.relpath(fpath)
         r.count('class_files_by_relative_path')
+    if bi % 3 != 1:
+        # the path already holds a LONGER text (the class of the book before it and more): what is there afterwards is the new class only
+        with open(fpath, 'w', encoding='utf-8', newline='') as f0:
+            f0.write((_PREV_TEXT[0] if _PREV_TEXT else 'class ExcelInPython:\n    pass\n') + '\n' + 'leftover_of_an_earlier_translation = (\n' * 3 + '# filler\n' * 60000)
+        r.count('class_files_written_over_a_longer_file')
     w = pipeline.guarded(lambda: p.write_translation(fpath), 'translate')
     if not w.ok:
         report(r, ID, None, case, w.brief(), 'write_translation succeeds after get_translation did', monitor='write')
@@ -348,6 +356,8 @@ def whole_book(ctx, bi):
         ftext = f.read()
     if ftext != text:
         report(r, ID, None, case, {'file_len': len(ftext), 'text_len': len(text)}, 'file holds the returned text', monitor='file-equals-text')
+    del _PREV_TEXT[:]
+    _PREV_TEXT.append(text)
     exf = pipeline.guarded(lambda: pipeline.Executor().set_executed_class(class_file=fpath), 'load_file')
     if not exf.ok:
         report(r, ID, None, case, exf.brief(), 'the written file loads', monitor='load-file')
